@@ -106,6 +106,12 @@ impl S3 for FileSystem {
             self.clear_metadata(&input.bucket, &input.key)?;
         }
 
+        // the stored checksums belong to the content: the copy carries the source's, never the overwritten object's
+        match self.load_internal_info(bucket, key).await? {
+            Some(info) => self.save_internal_info(&input.bucket, &input.key, &info).await?,
+            None => self.clear_internal_info(&input.bucket, &input.key)?,
+        }
+
         let md5_sum = self.get_md5_sum(bucket, key).await?;
 
         let copy_object_result = CopyObjectResult {
@@ -781,6 +787,8 @@ impl S3 for FileSystem {
         } else {
             self.clear_metadata(&bucket, &key)?;
         }
+        // no checksum of the assembled content is known; the overwritten object's must not be returned for it
+        self.clear_internal_info(&bucket, &key)?;
 
         let file_size = try_!(fs::metadata(&object_path).await).len();
         let md5_sum = self.get_md5_sum(&bucket, &key).await?;
